@@ -126,6 +126,16 @@ def main():
             bad = [k for k in range(len(jv)) if not (math.isfinite(jv[k]) and math.isfinite(rv[k]))]
             badf = [k for k in range(len(jv)) if not math.isfinite(jv[k])]
             if bad:
+                scale_nan = any(not math.isfinite(x) for x in r["jvp"].get("scale", []) + r["rev"].get("scale", []))
+                if qn == "std" and scale_nan and i in nres and "error" not in nres[i] \
+                        and all(math.isfinite(x) for x in nres[i]["jvp"][qn] + nres[i]["rev"][qn]):
+                    # the standard deviation is zero because the CALIBRATED SCALE is zero (exactly-zero whitened residuals) and the NaN
+                    # is the scale's: derivative of vector_norm at the zero vector (F13), not the std accessor's
+                    ck.report("C16.vector_norm-at-zero.non-finite",
+                              f"{cfgs}: the derivative of {qn} w.r.t. {c['param']} is NaN through the output scale; finite when backend.linalg.vector_norm "
+                              "is replaced by a norm that is differentiable at 0 (exactly-zero whitened residual)",
+                              {"case": jc, "quantity": qn, "jvp": jv, "rev": rv})
+                    continue
                 if qn == "std" and badf and all(abs(pv[k]) < 1e-300 for k in badf):
                     # forward mode: NaN exactly at the zero standard deviations; reverse mode: the same operation (norm of a zero
                     # row) poisons every entry of the gradient
